@@ -21,19 +21,25 @@ from common.check import PropertyCheck, Skip, hx
 REQ_KEYS = ["method", "scheme", "host", "path", "http_version", "port", "headers", "trailers", "content"]
 RESP_KEYS = ["reason", "http_version", "code", "headers", "trailers", "content"]
 
+INF, NAN = float("inf"), float("nan")       # JSON `Infinity` / `1e999` / `NaN`: json.loads accepts them
+DEEP = [[[[[[[[[[[[[[[[[[[[1]]]]]]]]]]]]]]]]]]]]
+SUR = "\ud800x"                              # lone surrogate: not encodable (UnicodeEncodeError)
 VALS = {
-    "method": ["PATCH", "post", 5, None, "G ET", ""],
-    "scheme": ["https", "", "ftp", 7],
-    "host": ["example.org", "a..b", "ex ample", "x" * 70 + ".de", 5, "münchen.de", "[::1]", ""],
-    "path": ["/x", "/edit?a=b", "", 5, None, "no-slash"],
-    "http_version": ["HTTP/2.0", "HTTP/1.0", 1.1, "bogus"],
-    "port": [123, "456", "abc", None, 1.5, [1], " 7 ", -1, 70000, True, "", "0x10", {"a": 1}],
-    "code": [404, "200", "x", None, 2.7, 99999, [], "", -5],
-    "reason": ["Non-Autorisé", "OK", 5, ""],
+    "method": ["PATCH", "post", 5, None, "G ET", "", SUR, INF, [1], {"a": 1}, DEEP],
+    "scheme": ["https", "", "ftp", 7, SUR, NAN],
+    "host": ["example.org", "a..b", "ex ample", "x" * 70 + ".de", 5, "münchen.de", "[::1]", "", SUR, "\udcff", INF, ["h"]],
+    "path": ["/x", "/edit?a=b", "", 5, None, "no-slash", SUR, {"p": 1}],
+    "http_version": ["HTTP/2.0", "HTTP/1.0", 1.1, "bogus", SUR, INF],
+    # int() raises ValueError for text/NaN, TypeError for null/containers, OverflowError for infinities
+    "port": [123, "456", "abc", None, 1.5, [1], " 7 ", -1, 70000, True, "", "0x10", {"a": 1},
+             INF, -INF, NAN, 1e300, 10 ** 30, -10 ** 30, "1e999", "Infinity", DEEP, SUR, "١٢٣"],
+    "code": [404, "200", "x", None, 2.7, 99999, [], "", -5, INF, -INF, NAN, 1e300, 10 ** 30, DEEP, SUR, "inf"],
+    "reason": ["Non-Autorisé", "OK", 5, "", SUR, INF, [1]],
     "headers": [[["a", "b"]], [["a", "b"], ["c"]], [["a", 1]], "ab", 5, None, [["a", "b", "c"]], [],
                 [["Host", "x"], ["Content-Type", "text/plain; charset=latin-1"]], [["a", "b"], 7], [[]],
-                [["k", "v1"], ["k", "v2"]], {"a": "b"}, [["näme", "väl"]], [None], [["a", None]]],
-    "content": ["text", None, 5, ["x"], "ünï", "", {"a": 1}, "a\x00b"],
+                [["k", "v1"], ["k", "v2"]], {"a": "b"}, [["näme", "väl"]], [None], [["a", None]],
+                [["a", SUR]], [[SUR, "b"]], [["a", INF]], INF, DEEP, [["a", "b"], [["x"], "y"]], [["a", "b"], {"k": "v"}]],
+    "content": ["text", None, 5, ["x"], "ünï", "", {"a": 1}, "a\x00b", SUR, INF, NAN, DEEP, True],
     "marked": [":red_circle:", "", "x", ":grapes:"],
     "comment": ["a comment", "", "zz"],
 }
@@ -154,7 +160,9 @@ class Check(PropertyCheck):
     technique = "Lean 4 proof (transaction model, induction over the step list) + differential sessions against the real tornado handler"
     rule = ("sessions of 1-3 edit documents over http flows with/without response, websocket and tcp flows, optionally with a "
             "prior backup(); documents mix valid values with unknown keys, non-dict sub-documents, malformed ports/status codes, "
-            "malformed header/trailer lists, odd hosts and non-text contents (~60% all-valid, ~40% with >=1 invalid part at a "
+            "malformed header/trailer lists, odd hosts and non-text contents; the per-field value pools include inputs on which the "
+            "real setters raise exception classes other than ValueError/TypeError/AttributeError (non-finite floats -> "
+            "OverflowError), lone surrogates, huge ints and deeply nested containers (~60% all-valid, ~40% with >=1 invalid part at a "
             "random position). distinct = distinct session; non-trivial = at least one field update reached a setter.")
     budget = {"quick": 1500, "thorough": 40000}
     time_budget = {"quick": 35, "thorough": 500}
@@ -182,7 +190,8 @@ class Check(PropertyCheck):
         [name, value] string pairs); host validity is left to the implementation"""
         if key in ("port", "code"):
             if isinstance(v, bool): return False
-            if isinstance(v, (int, float)): return False
+            if isinstance(v, int): return False
+            if isinstance(v, float): return v != v or v in (INF, -INF)      # NaN / infinities have no integer value
             if isinstance(v, str):
                 try: int(v); return False
                 except ValueError: return True
